@@ -185,6 +185,120 @@ def _add_fixed(a, pre):
     raise ValueError(entry)
 
 
+# ---------------------------------------------------------------- C09 / C10 / C20
+_DN = {"y": "years", "mo": "months", "w": "weeks", "d": "days", "h": "hours", "mi": "minutes", "s": "seconds",
+       "ms": "milliseconds", "us": "microseconds"}
+
+
+@op("dur_new")
+def _dur_new(a, pre):
+    kw = {_DN[k]: v for k, v in a["args"].items() if v or a.get("explicit0")}
+    d = P().duration(**kw) if a.get("entry") == "duration" else P().Duration(**kw)
+    return proj.enc_duration_full(d)
+
+
+@op("dur_op")
+def _dur_op(a, pre):
+    o = a["o"]
+    x = pre[0]
+    y = pre[1] if len(pre) > 1 else None
+    if o == "neg":
+        return -x
+    if o == "abs":
+        return abs(x)
+    if o == "add":
+        return x + y
+    if o == "radd":
+        return y + x
+    if o == "sub":
+        return x - y
+    if o == "mul_int":
+        return x * a["n"]
+    if o == "rmul_int":
+        return a["n"] * x
+    if o == "mul_float":
+        return x * (a["num"] / a["den"])
+    if o == "rmul_float":
+        return (a["num"] / a["den"]) * x
+    if o == "truediv_int":
+        return x / a["n"]
+    if o == "truediv_float":
+        return x / (a["num"] / a["den"])
+    if o == "floordiv_int":
+        return x // a["n"]
+    if o == "floordiv_dur":
+        return x // y
+    if o == "mod_dur":
+        return x % y
+    if o == "divmod_dur":
+        return divmod(x, y)
+    if o == "truediv_dur":
+        return x / y
+    if o == "cmp":
+        nat = _dt.timedelta(*proj.td3(x))
+        return {"k": "cmp", "eq": bool(x == y), "lt": bool(x < y), "le": bool(x <= y), "gt": bool(x > y),
+                "ge": bool(x >= y), "hash_eq": hash(x) == hash(y), "hash_native": hash(x) == hash(nat)}
+    raise ValueError(o)
+
+
+def _tkw(a):
+    return {k: v for k, v in (("hours", a["h"]), ("minutes", a["mi"]), ("seconds", a["s"]), ("microseconds", a["us"])) if v}
+
+
+@op("time_add")
+def _time_add(a, pre):
+    t = pre[0]
+    en = a["entry"]
+    if en == "add":
+        return t.add(**_tkw(a))
+    if en == "subtract":
+        return t.subtract(**_tkw(a))
+    td = _dt.timedelta(**_tkw(a))
+    if en == "plus_td":
+        return t + td
+    if en == "minus_td":
+        return t - td
+    if en == "radd_td":
+        return td + t
+    raise ValueError(en)
+
+
+@op("time_diff")
+def _time_diff(a, pre):
+    t1, t2 = pre
+    en = a["entry"]
+    if en == "diff_default":
+        r = t1.diff(t2)
+    elif en == "diff_abs":
+        r = t1.diff(t2, True)
+    elif en == "diff_signed":
+        r = t1.diff(t2, False)
+    elif en == "sub":
+        r = t2 - t1
+    elif en == "rsub_native":
+        r = _dt.time(t2.hour, t2.minute, t2.second, t2.microsecond) - t1
+    elif en == "sub_native":
+        r = t2 - _dt.time(t1.hour, t1.minute, t1.second, t1.microsecond)
+    else:
+        raise ValueError(en)
+    if isinstance(r, _dt.timedelta):
+        e = proj.enc_duration(r) if hasattr(r, "years") else enc(r)
+        e["k"] = "dur"
+        e["ts"] = proj.f2d3(r.total_seconds())
+        return e
+    return r
+
+
+@op("time_closest")
+def _time_closest(a, pre):
+    return pre[0].closest(pre[1], pre[2])
+
+
+@op("time_farthest")
+def _time_farthest(a, pre):
+    return pre[0].farthest(pre[1], pre[2])
+
+
 # ---------------------------------------------------------------- execution
 class HarnessTimeout(Exception):
     """the call did not return within OP_TIMEOUT seconds (observed as non-termination)"""
@@ -218,7 +332,12 @@ def event(opname, a, pre_vals, backend, pre_objs=None):
     objs = pre_objs if pre_objs is not None else [dec(v) for v in pre_vals]
     res = execute(opname, a, objs)
     post = res if isinstance(res, dict) and "k" in res else enc(res)
-    ev = {"op": opname, "bk": backend, "a": a, "pre": [enc(o) for o in objs], "post": post}
+    pre = [enc(o) for o in objs]
+    if pre_objs is None:
+        for pv, lv in zip(pre_vals, pre):
+            if isinstance(pv, dict) and "args" in pv:
+                lv["args"] = pv["args"]       # keeps the event re-executable
+    ev = {"op": opname, "bk": backend, "a": a, "pre": pre, "post": post}
     proj.chk(ev)
     return ev, res
 
